@@ -338,6 +338,25 @@ func (m *uiModel) apply(action string) bool {
 		if m.multi > 0 {
 			m.sel = nil
 		}
+	case "next-selected", "prev-selected":
+		// to the nearest selected result below (next) / above (prev) the current one on the screen, going
+		// round the list; the current line stays if no other result is selected
+		if total := len(m.list); len(m.sel) > 0 && total > 1 {
+			step := 1 // index 0 is at the top (reverse layouts): down the screen is up the index
+			if !m.reverse {
+				step = -1
+			}
+			if name == "prev-selected" {
+				step = -step
+			}
+			for i := 1; i < total; i++ {
+				y := ((m.cy+step*i)%total + total) % total
+				if m.isSelected(m.list[y]) >= 0 {
+					m.cy = y
+					break
+				}
+			}
+		}
 	case "jump":
 		m.jumping = true
 	case "change-multi":
@@ -367,7 +386,7 @@ var c09Actions = []string{
 	"up", "down", "first", "last", "pos(3)", "pos(-2)", "pos(0)", "page-up", "page-down", "half-page-up", "half-page-down",
 	"select", "deselect", "toggle", "toggle+down", "toggle+up", "toggle-down", "toggle-up", "toggle-in", "toggle-out", "select-all", "deselect-all",
 	"toggle-all", "clear-selection", "change-multi(2)", "change-multi", "change-multi(0)",
-	"jump", "put(" + c09LongText + ")", "replace-query",
+	"jump", "put(" + c09LongText + ")", "replace-query", "next-selected", "prev-selected",
 }
 
 // longer than the 1000 runes a query may hold
@@ -741,6 +760,8 @@ func c09Settle(r *sysRun, st *c09State, busy bool, final bool) {
 	burstQueryChanged := false
 	burstFed := false
 	queryChanges := 0
+	// the list cursor is known at the start of this burst iff the previous comparison went all the way
+	cursorKnown := st.syncedAt == st.applied && st.applied > 0
 	arrive := func() {
 		// the new input replaces the old one: nothing stays selected, the list is the new input filtered; which
 		// intermediate lists the cursor was clamped against while it loaded is timing
@@ -858,13 +879,17 @@ func c09Settle(r *sysRun, st *c09State, busy bool, final bool) {
 			}
 			if !rested {
 				st.listExact = false
+				if strings.Contains(ev.Tag, "replace-query") {
+					st.exact = false // which line is current is not known either
+				}
 			}
 		}
 		if burstQueryChanged && !isEditAction(ev.Tag) {
 			st.listExact = false
 		}
-		if burstQueryChanged && strings.Contains(ev.Tag, "replace-query") {
-			// which line is current depends on whether the list of the query just typed has arrived
+		if strings.Contains(ev.Tag, "replace-query") && (burstQueryChanged || !cursorKnown || st.cursorLoose || !st.listExact) {
+			// which line is current depends on whether the list of the query just typed has arrived, or the
+			// model has lost track of the list cursor (it is re-read at the next comparison)
 			st.exact = false
 		}
 		before := string(m.query)
